@@ -164,8 +164,15 @@ fn impl_db_key(f: &syn::Field) -> Option<proc_macro2::TokenStream> {
     {
         if is_flatten_type(f) {
             let ty = &f.ty;
+            // A flattened type with optional fields reports no keys, which
+            // means "select all keys"; then this type must select all keys
+            // too, otherwise the nested fields are never fetched.
             return Some(quote! {
-                keys.extend(<#ty as ::agdb::DbType>::db_keys());
+                let nested = <#ty as ::agdb::DbType>::db_keys();
+                if nested.is_empty() {
+                    return ::std::vec::Vec::new();
+                }
+                keys.extend(nested);
             });
         }
 
